@@ -285,6 +285,12 @@ def oracle(case, out):
     ret = out['ret']
     if not fin:
         return 'run() returned without calling expect'
+    # "timeout" reaches the spawn as given (None = no time limit; -1 = the spawn's own default): the scripted transport has no clock,
+    # so a limit that run() invents or drops can only be seen here
+    ct = (out.get('ctor') or {}).get('timeout', 'missing')
+    want_t = case.get('timeout', 30)
+    if (want_t == -1 and ct != 30) or (want_t != -1 and ct != want_t):
+        return 'run(timeout=%r) built its spawn with timeout=%r' % (want_t, ct)
     want_type = 'str' if case['mode'] == 'u' else 'bytes'
     if out.get('ret_type') != want_type:
         return 'run() returned %s in %s mode' % (out.get('ret_type'), 'unicode' if case['mode'] == 'u' else 'bytes')
@@ -429,7 +435,7 @@ def rand_case(rng):
         script.append(['E'])
     L_ = max([len(p) for p in plants] + [1])
     return dict(mode=mode, events=(events if (events or rng.random() < 0.5) else None), form=form,
-                W=rng.choice([None, None, None, 1, L_, L_ + 1, 40]), cb=cb, script=script, timeout=rng.choice([-1, 30, 1]),
+                W=rng.choice([None, None, None, 1, L_, L_ + 1, 40]), cb=cb, script=script, timeout=rng.choice([-1, 30, 1, None, 0.5]),
                 wx=rng.random() < 0.3, exit=rng.choice([0, 1, 3, 255, None]))
 
 
